@@ -209,7 +209,8 @@ def symmetric_diff(ctx, prog):
             want = None   # from_residual(None)
             good = len(got) == 1 and "from_residual" in list(got)[0]
         elif s == "Some" and o == "Some":
-            want = {"ret(Option::Some(tuple(%s, DiffElement::Unequal(%s, %s))))" % (K, S, O)} if ne == "ne" else set()
+            # equal values: nothing is emitted, the loop takes the next key ("loop-cut" = back at the loop head)
+            want = {"ret(Option::Some(tuple(%s, DiffElement::Unequal(%s, %s))))" % (K, S, O)} if ne == "ne" else {"loop-cut"}
             good = got == want
         elif s == "Some":
             want = {"ret(Option::Some(tuple(%s, DiffElement::Left(%s))))" % (K, S)}
